@@ -354,7 +354,7 @@ func c25PartC(c *vx.Ctx) {
 	c.Rule("part peer-ack: a real server Conn after the handshake sends m in {1,3} 1-RTT packets, with no number or the number after the k-th packet (k=1..m) skipped (Conn.skip.skip set white-box), optionally the peer first acknowledges exactly the sent packets; then every non-empty ACK frame over the numbers [first sent, next never-sent number] is delivered. Expected: covers a never-sent or skipped number => CONNECTION_CLOSE with PROTOCOL_VIOLATION on the wire; otherwise no CONNECTION_CLOSE.")
 	c.Rule("part peer-dup: every history of length <= 3 (thorough 4; quick adds the length-4 histories deliver,deliver,X,deliver) over {deliver peer packet Q0+0..3 (each delivery carries one byte on a stream unique to the delivery), burst of nine single-packet ranges, peer acks everything the conn sent, 35ms pass}; at the end the streams are read: for every packet number at most one delivery may have taken effect; every ACK frame the conn put on the wire may only cover numbers the peer sent. Non-trivial = at least one delivery took effect.")
 	c.Assume("parts peer-*: server side only, application-data space only; numbers used during the handshake are treated as received")
-	vx.Enumerate(c, "peer-ack", vx.Opts{Serial: true, NoRerun: false}, func(yield func(c25Ack) bool) {
+	vx.Enumerate(c, "peer-ack", vx.Opts{Serial: true, Crumb: true}, func(yield func(c25Ack) bool) {
 		for _, m := range []int{1, 3} {
 			for sk := 0; sk <= m; sk++ {
 				wbits := m + 1
@@ -372,7 +372,7 @@ func c25PartC(c *vx.Ctx) {
 		}
 	}, c25CheckAck)
 	maxLen := vx.Pick(c, 3, 4)
-	vx.Enumerate(c, "peer-dup", vx.Opts{Serial: true}, func(yield func(c25Dup) bool) {
+	vx.Enumerate(c, "peer-dup", vx.Opts{Serial: true, Crumb: true}, func(yield func(c25Dup) bool) {
 		ok := vx.Strings([]int{0, 1, 2, 3, c25EvBurst, c25EvAck, c25EvSleep}, 1, maxLen, func(h []int) bool {
 			return yield(c25Dup{h})
 		})
